@@ -4,11 +4,20 @@ result per output line.  Imports model files only (no Mathlib), so it links as a
 -/
 import Driver.Pure
 import Driver.Topo
+import Driver.Seglog
+import Driver.Watermark
+import Driver.Breaker
+import Driver.Queue
+import Driver.Grammar
 
 open Driver
 
 structure DState where
   mgrs : List (Nat × SierraModel.Topology.Mgr) := []
+  sl : Driver.Seglog.St := {}
+  wm : Driver.Watermark.St := {}
+  breaker : Option SierraModel.Breaker.Sys := none
+  c12 : Driver.Queue.St := {}
 
 def step (st : DState) (toks : List String) : DState × String :=
   match toks with
@@ -17,6 +26,11 @@ def step (st : DState) (toks : List String) : DState × String :=
   | "c23" :: rest => (st, Pure.c23 rest)
   | "c13" :: rest => (st, Topo.c13 rest)
   | "c14" :: rest => let (m, r) := Topo.c14 st.mgrs rest; ({ st with mgrs := m }, r)
+  | "c26" :: rest => let (b, r) := Breaker.c26 st.breaker rest; ({ st with breaker := b }, r)
+  | "c12" :: rest => let (q, r) := Queue.c12 st.c12 rest; ({ st with c12 := q }, r)
+  | "c21" :: rest => (st, Grammar.c21 rest)
+  | "wm" :: rest => let (w, r) := Watermark.wm st.wm rest; ({ st with wm := w }, r)
+  | "sl" :: rest => let (s, r) := Seglog.step st.sl rest; ({ st with sl := s }, r)
   | _ => (st, "bad-op")
 
 partial def loop (h : IO.FS.Stream) (out : IO.FS.Stream) (st : DState) : IO Unit := do
